@@ -212,6 +212,9 @@ def _k1(x, y, nx, ny):
 KERNELS = [_k0, _k1]
 
 
+_ZERO3 = np.zeros(3)
+
+
 def make_regular(k):
     f = KERNELS[k]
 
@@ -219,7 +222,9 @@ def make_regular(k):
         n = trial_points.shape[1]
         out = np.empty(n, dtype=np.float64)
         for j in range(n):
-            out[j] = f(test_point, trial_points[:, j], test_normal, trial_normals[:, j])
+            # the Maxwell assemblers pass None for the normals
+            out[j] = f(test_point, trial_points[:, j], _ZERO3 if test_normal is None else test_normal,
+                       _ZERO3 if trial_normals is None else trial_normals[:, j])
         return out
     return kern
 
@@ -231,20 +236,23 @@ def make_singular(k):
         n = trial_points.shape[1]
         out = np.empty(n, dtype=np.float64)
         for j in range(n):
-            out[j] = f(test_points[:, j], trial_points[:, j], test_normal, trial_normal)
+            out[j] = f(test_points[:, j], trial_points[:, j], _ZERO3 if test_normal is None else test_normal,
+                       _ZERO3 if trial_normal is None else trial_normal)
         return out
     return kern
 
 
 class Patched(object):
-    """Run the library's own assemble_dense / SingularAssembler with the kernel function replaced by a surrogate
-    and the Numba assembly loops executed through .py_func (same source, no JIT).  Captures the singular rule
-    arrays the implementation built."""
+    """Run the library's own assemble_dense / SingularAssembler with the Numba assembly loops of WHICHEVER assembler
+    select_numba_kernels picks (default scalar, the three hypersingular, the two Maxwell; regular and singular) executed
+    through .py_func (same source, no JIT), and the kernel function replaced by a polynomial surrogate (kernel_id 0/1)
+    or kept (kernel_id None: the library's own Green's function).  Captures the singular rule arrays."""
 
     def __init__(self, kernel_id, jit=False):
         self.k = kernel_id
         self.jit = jit
         self.captured = []
+        self.used = []
 
     def __enter__(self):
         import numba
@@ -253,19 +261,19 @@ class Patched(object):
         self.nk, self.sa = nk, sa
         self.orig_select = nk.select_numba_kernels
         self.orig_get = sa._SingularQuadratureRuleInterfaceGalerkin.get_arrays
-        reg, sing = make_regular(self.k), make_singular(self.k)
-        if self.jit:
-            reg, sing = numba.njit(reg), numba.njit(sing)
+        reg = sing = None
+        if self.k is not None:
+            reg, sing = make_regular(self.k), make_singular(self.k)
+            if self.jit:
+                reg, sing = numba.njit(reg), numba.njit(sing)
         me = self
 
         def select(desc, mode="regular"):
-            if mode == "regular":
-                f = nk.default_scalar_regular_kernel
-                return (f if me.jit else f.py_func, reg)
-            if mode == "singular":
-                f = nk.default_scalar_singular_kernel
-                return (f if me.jit else f.py_func, sing)
-            return me.orig_select(desc, mode)
+            f, kf = me.orig_select(desc, mode)
+            if mode in ("regular", "singular"):
+                me.used.append((mode, f.py_func.__name__))
+                return (f if me.jit else f.py_func, kf if me.k is None else (reg if mode == "regular" else sing))
+            return f, kf
 
         def get_arrays(rule):
             arrs = me.orig_get(rule)
@@ -278,6 +286,40 @@ class Patched(object):
     def __exit__(self, *a):
         self.nk.select_numba_kernels = self.orig_select
         self.sa._SingularQuadratureRuleInterfaceGalerkin.get_arrays = self.orig_get
+        return False
+
+
+class PyFuncMode(object):
+    """Execute the Numba-decorated sparse kernels and grid-function routines through .py_func (same source text, no
+    JIT specialisation per space type / callable).  Used by the correspondence and by the quick search."""
+
+    def __init__(self, enabled=True):
+        self.enabled = enabled
+
+    def __enter__(self):
+        if not self.enabled:
+            return self
+        import bempp_cl.core.numba_kernels as nk
+        import bempp_cl.api.assembly.grid_function as gfm
+        self.nk, self.gfm = nk, gfm
+        self.saved = (nk.select_numba_kernels, gfm._project_function, gfm._project_function_vectorized, gfm._integrate)
+        orig = nk.select_numba_kernels
+
+        def select(desc, mode="regular"):
+            a, k = orig(desc, mode)
+            if mode == "sparse":
+                return a.py_func, k.py_func
+            return a, k
+        nk.select_numba_kernels = select
+        gfm._project_function = gfm._project_function.py_func
+        gfm._project_function_vectorized = gfm._project_function_vectorized.py_func
+        gfm._integrate = gfm._integrate.py_func
+        return self
+
+    def __exit__(self, *a):
+        if self.enabled:
+            (self.nk.select_numba_kernels, self.gfm._project_function, self.gfm._project_function_vectorized,
+             self.gfm._integrate) = self.saved
         return False
 
 
@@ -313,3 +355,35 @@ def set_orders(regular, singular):
     import bempp_cl.api as api
     api.GLOBAL_PARAMETERS.quadrature.regular = int(regular)
     api.GLOBAL_PARAMETERS.quadrature.singular = int(singular)
+
+
+def designed_opts(grid, kind, rng, avoid=None, partner=None, tries=400):
+    """Options for a space with >= 3 support elements whose support is NOT a leading block of elements, whose local
+    multipliers (P1/RWG/SNC) are not all 1 on the support and differ between 'row of element e' and 'row of the position
+    of e in the support' (so that any confusion of element index and position is visible), with at least one DOF;
+    support different from `avoid`; if `partner` (a support) is given, some element pair (this, partner) is not adjacent
+    (the regular assembler contributes)."""
+    els = grid.elements
+    nel = grid.number_of_elements
+    vsets = [set(int(x) for x in els[:, e]) for e in range(nel)]
+    for _ in range(tries):
+        opts = random_space_opts(grid, kind, rng, allow_full=False)
+        opts.pop("swapped_normals", None)
+        try:
+            sp = make_space(grid, kind, opts)
+        except Exception:
+            continue
+        sup = np.flatnonzero(sp.support)
+        n = len(sup)
+        if n < min(3, nel - 1) or bool(np.all(sp.support[:n])) or not space_has_dofs(sp):
+            continue
+        if kind in ("P1", "RWG", "SNC"):
+            lm = sp.local_multipliers
+            if bool(np.all(lm[sup] == 1)) or bool(np.array_equal(lm[sup], lm[:n])):
+                continue
+        if avoid is not None and bool(np.array_equal(sp.support, avoid)):
+            continue
+        if partner is not None and not any(not (vsets[a] & vsets[b]) for a in sup for b in np.flatnonzero(partner)):
+            continue
+        return opts, sp
+    raise RuntimeError("no designed space found for %s" % kind)
